@@ -68,6 +68,9 @@ type seqCase struct {
 	Rule   ruleDesc `json:"rule"`
 	Arr    []arr    `json:"arrivals"`
 	FailAt int      `json:"fail_at,omitempty"`
+	// ReloadAt >= 0: before that arrival the rule list is loaded again (whole-set) with the same rule in a fresh
+	// object plus a rule of another resource: the pacing state of the unchanged rule must carry on
+	ReloadAt int `json:"reload_at"`
 }
 
 func seqEngine() {
@@ -81,7 +84,7 @@ func seqEngine() {
 			continue
 		}
 		rng := run.Rand(i)
-		c := &seqCase{Rule: genRule(rng)}
+		c := &seqCase{Rule: genRule(rng), ReloadAt: -1}
 		cost1 := uint64(c.Rule.cost(1))
 		for k, m := 0, 30+rng.Intn(120); k < m; k++ {
 			a := arr{Batch: vk.PickU32(rng, 1, 1, 1, 2, 3, 5)}
@@ -106,6 +109,9 @@ func seqEngine() {
 			}
 			c.Arr = append(c.Arr, a)
 		}
+		if rng.Intn(3) == 0 {
+			c.ReloadAt = 1 + rng.Intn(len(c.Arr)-1)
+		}
 		run.Begin(i, c)
 		if i < 2 {
 			cc := *c
@@ -127,6 +133,12 @@ func runSeq(idx int, c *seqCase) {
 	trace := []byte{}
 	maxQ := int64(c.Rule.MaxQ) * 1e6
 	for i, a := range c.Arr {
+		if i == c.ReloadAt {
+			flow.LoadRules([]*flow.Rule{{ID: "t", Resource: res, TokenCalculateStrategy: flow.Direct, ControlBehavior: flow.Throttling,
+				Threshold: c.Rule.Thr, MaxQueueingTimeMs: c.Rule.MaxQ, StatIntervalInMs: c.Rule.Interval},
+				{ID: "elsewhere", Resource: res + "-other", TokenCalculateStrategy: flow.Direct, ControlBehavior: flow.Reject, Threshold: 1}})
+			run.Count("reloads", 1)
+		}
 		clk.AddNs(a.DtNs)
 		now := int64(clk.Ns())
 		clk.TakeSleeps()
